@@ -2,6 +2,7 @@ import TrucModel.Proofs.Memory
 import TrucModel.Generated.Primitives
 import TrucModel.Proofs.Corollaries
 import TrucModel.Proofs.Reachable
+import TrucModel.Proofs.MachineWFProps
 /-
   C07 — Generated code only touches storage it owns, aligned, with the right type.
 -/
@@ -59,6 +60,31 @@ theorem C07_no_machine_error (dr : String → Bool) (cap : Nat) (specs : List Sp
       fun d hd => hm.pod s' (List.mem_of_getElem? hs') d (hcw.plusSub.subset hd)
     obtain ⟨b2, st, hcall, _⟩ := conv_ok dr cap s s' uninit andOut hcw b hc hinv hrec hpod hz vals hl hty
     exact ⟨st, hcall⟩
+
+/-- the executable premise check the driver evaluates on every compiled module (`xmod` answers `wf=…`) decides
+    `ModuleWF` exactly, so wherever it answered `true` the theorem above applies to that very module … -/
+theorem C07_premise_check_decides (dr : String → Bool) (cap : Nat) (specs : List Spec) :
+    moduleWFB dr cap specs = true ↔ ModuleWF dr cap specs :=
+  moduleWFB_iff dr cap specs
+
+/-- … in one statement: a module that passes the check has no machine error on any reachable record -/
+theorem C07_checked_module_no_error (dr : String → Bool) (cap : Nat) (specs : List Spec)
+    (hchk : moduleWFB dr cap specs = true) (k : Nat) (b : Buf) (h : Reach dr cap specs k b) :
+    ∃ s, specs[k]? = some s ∧ (∃ st, call dr cap (dropFn s) { self_ := some b } = .ok st) ∧
+      (∀ d ∈ s.data, ∀ sig, ∃ st, call dr cap ⟨sig, [.get d]⟩ { self_ := some b } = .ok st) := by
+  obtain ⟨s, hs, hd, _, hg, _⟩ := C07_no_machine_error dr cap specs ((moduleWFB_iff dr cap specs).1 hchk) k b h
+  exact ⟨s, hs, hd, hg⟩
+
+/-- non-vacuity: the check accepts a two-variant module (a carried-over field, one removed, one added) and rejects one whose
+    fields overlap -/
+example :
+    let a : D := ⟨0, "a", "u32", 4, 4, 0, false⟩
+    let b : D := ⟨1, "b", "String", 24, 8, 8, false⟩
+    let c : D := ⟨2, "c", "u16", 2, 2, 4, true⟩
+    let c' : D := ⟨2, "c", "u16", 2, 2, 2, true⟩
+    moduleWFB (fun t => t == "String") 32 [⟨0, 8, [a, b], [], [], false, 0⟩, ⟨1, 4, [a, c], [b], [c], true, 0⟩] = true ∧
+    moduleWFB (fun t => t == "String") 32 [⟨0, 8, [a, b], [], [], false, 0⟩, ⟨1, 4, [a, c'], [b], [c'], true, 0⟩] = false := by
+  decide +kernel
 
 example : (4 : Nat) ∣ 64 + 12 := C07_aligned_access 64 12 4 16 (by decide) (by decide) (by decide)
 
